@@ -18,7 +18,7 @@ from engine.absarray import Model
 from engine.absops import NONTRIVIAL, PYERR, TABLES, Spec, World, partner
 from engine.layout import LayoutError
 from engine.loader import AnalysisError
-from engine.minieval import Obj, Raised, Unsupported
+from engine.minieval import Diverges, Obj, Raised, Unsupported
 from rules.sem_adjoint import _labels
 from rules.sem_layout import Witness, ixdesc
 
@@ -86,6 +86,9 @@ def _pair_job(state, job):
         ev = w.ev()
         try:
             ref = value(w, ev, _td(w, ev, sp.build(w), other.build(w), (axa, axb)))
+        except Diverges:
+            wit.bad("R04.5|does not terminate", f"{where}: the contraction does not terminate (loop bound exceeded)")
+            return wit.w, wit.n
         except (Raised,) + PYERR + (LayoutError,):
             return wit.w, wit.n  # the plain contraction itself fails: reported by C02 / C06, there is no route to compare
         # R04.5 operand order
@@ -126,6 +129,8 @@ def _pair_job(state, job):
                 r4 = w.meth(ev, r4, "transpose", back)
             if value(w, ev, r4) != ref:
                 wit.bad(f"R04.6|transpose of {which} beforehand", f"{where}: transposing {which} beforehand (and the result back) changes the result")
+    except Diverges:
+        wit.bad("R04.5|does not terminate", f"{where}: the contraction does not terminate (loop bound exceeded)")
     except Unsupported as e:
         raise AnalysisError(f"tensordot_fermionic outside the evaluable sub-language: {e}")
     except Raised as e:
@@ -163,6 +168,8 @@ def _chain_job(state, job):
         if vl != vr:
             what = "labels" if vl[:-1] == vr[:-1] else ("signs / blocks" if vl[1:3] == vr[1:3] else "structure")
             wit.bad(f"R04.7|{kind}", f"{where}: (A.B).C and A.(B.C) differ in {what}")
+    except Diverges:
+        wit.bad("R04.7|does not terminate", f"{where}: the contraction does not terminate (loop bound exceeded)")
     except Unsupported as e:
         raise AnalysisError(f"tensordot_fermionic outside the evaluable sub-language: {e}")
     except Raised as e:
@@ -251,3 +258,141 @@ def check_routes(prog, ctx):
         for fam, wmsg in sorted(mine.items()):
             ctx.check(False, rid, f, f.node, fam, f"{msg} — witness: {wmsg}")
     return len(pairs), len(chains)
+
+
+# ---------------------------------------------------------------------------------------------------------------
+# R04.8: the label merge itself, evaluated directly (independent of its textual form)
+# ---------------------------------------------------------------------------------------------------------------
+def check_label_merge(prog, ctx):
+    """resolve_combined_oddpos(left, right, new) evaluated on small label lists: the labels left on `new` are the sorted, pair-free merge;
+    the global sign is taken iff (number of exchanges needed) + (pairs met ket-then-bra) + (cross-over: left odd and right carries an odd
+    number of labels) is odd; a repeated label with the same direction is refused."""
+    from engine.absarray import evaluator
+
+    rid = "R04.8"
+    f = prog.func("symmray.fermionic_core:resolve_combined_oddpos")
+    opc = prog.cls("FermionicOperator")
+    arrc = prog.cls("FermionicArray")
+    bad = {}
+    n = 0
+
+    def op(ev, label, dual=False):
+        return ev.apply(opc, [label, dual], {}, None)
+
+    def stub(ev, labels, parity):
+        # a FermionicArray stand-in: only oddpos / parity are read; phase_global(inplace=True) is recorded
+        o = Obj(arrc, {"_oddpos": tuple(op(ev, l, d) for (l, d) in labels), "_charge": parity, "_symmetry": Obj(prog.cls("Z2"), {}),
+                       "_phases": {}, "_blocks": {}, "_indices": ()})
+        return o
+
+    universe = [1, 2, 3, 4]
+    cases = []
+    for nl in (0, 1, 2):
+        for nr in (0, 1, 2, 3):
+            for labs in itertools.permutations(universe, nl + nr):
+                l, r = tuple(sorted(labs[:nl])), tuple(sorted(labs[nl:]))
+                cases.append(([(x, False) for x in l], [(x, False) for x in r]))
+    # conjugate pairs across the seam (ket-then-bra and bra-then-ket), with a spectator
+    for first_dual in (False, True):
+        cases.append(([(2, first_dual)], [(2, not first_dual)]))
+    seen = set()
+    for l, r in cases:
+        key = (tuple(l), tuple(r))
+        if key in seen:
+            continue
+        seen.add(key)
+        flips = []
+        ev = evaluator(prog)
+        ev.method_stubs = {"phase_global": lambda self_, *a, _f=flips, **k: _f.append(1) or self_}
+        left, right = stub(ev, l, len(l) % 2), stub(ev, r, len(r) % 2)
+        # operands carry their labels in the library's own order (that is what earlier merges leave behind)
+        lt_ = prog.lookup_method(opc, "__lt__")
+        for o_ in (left, right):
+            objs_ = list(o_.fields["_oddpos"])
+            for i_ in range(len(objs_)):
+                for j_ in range(len(objs_) - 1 - i_):
+                    if ev.truth(ev.call(lt_, [objs_[j_]], self_obj=objs_[j_ + 1])):
+                        objs_[j_], objs_[j_ + 1] = objs_[j_ + 1], objs_[j_]
+            o_.fields["_oddpos"] = tuple(objs_)
+        l = [(o.fields["_label"], bool(o.fields["_dual"])) for o in left.fields["_oddpos"]]
+        r = [(o.fields["_label"], bool(o.fields["_dual"])) for o in right.fields["_oddpos"]]
+        new = stub(ev, [], (len(l) + len(r)) % 2)
+        try:
+            ev.call(f, [left, right, new])
+        except Diverges:
+            bad.setdefault("runs", f"left={l} right={r}: the merge does not terminate (loop bound exceeded)")
+            break
+        except Unsupported as e:
+            raise AnalysisError(f"resolve_combined_oddpos outside the evaluable sub-language: {e}")
+        except (Raised, KeyError, TypeError, AttributeError, IndexError, ValueError) as e:
+            bad.setdefault("runs", f"left={l} right={r}: {type(e).__name__}: {getattr(e, 'what', e)}")
+            continue
+        n += 1
+        seq = list(l) + list(r)
+        # reference: bubble the labels into order counting exchanges; a conjugate pair is removed when adjacent
+        sign = -1 if (len(l) % 2 and len(r) % 2) else 1
+        work = list(seq)
+        i = 0
+        while i < len(work) - 1:
+            (la, da), (lb, db) = work[i], work[i + 1]
+            if la == lb and da != db:
+                if db:
+                    sign = -sign
+                del work[i:i + 2]
+                i = max(0, i - 1)
+            elif (not da and db) or (da == db and ((lb < la) if not da else (lb > la))):
+                # order: non-dual labels ascending first? -> use the library's own comparison through the evaluator below
+                i += 1
+            else:
+                i += 1
+        got_labels = [(o.fields["_label"], bool(o.fields["_dual"])) for o in new.fields["_oddpos"]]
+        # the labels must be sorted w.r.t. the library's order and pair-free; the sign is compared for all-ket lists, where the
+        # reference is simply the parity of the number of inversions
+        lt = prog.lookup_method(opc, "__lt__")
+        objs = list(new.fields["_oddpos"])
+        for a_, b_ in zip(objs, objs[1:]):
+            if ev.truth(ev.call(lt, [a_], self_obj=b_)):
+                bad.setdefault("sorted", f"left={l} right={r}: the labels left on the result {got_labels} are not sorted")
+        if all(not d for (_, d) in seq):
+            inv = sum(1 for i_ in range(len(seq)) for j_ in range(i_ + 1, len(seq)) if seq[i_][0] > seq[j_][0])
+            want = (-1) ** inv * (-1 if (len(l) % 2 and len(r) % 2) else 1)
+            got = -1 if len(flips) % 2 else 1
+            if sorted(x for x, _ in seq) != [x for x, _ in got_labels]:
+                bad.setdefault("labels", f"left={l} right={r}: labels on the result {got_labels}, expected the sorted merge")
+            if got != want:
+                bad.setdefault("sign", f"left={l} right={r}: global sign {got}, expected {want} ({inv} inversion(s), cross-over "
+                                       f"{'yes' if (len(l) % 2 and len(r) % 2) else 'no'})")
+        else:
+            # one conjugate pair: removed, sign iff it meets ket-then-bra (second one dual)
+            pair_label = 2
+            if any(x == pair_label for x, _ in got_labels):
+                bad.setdefault("pairs", f"left={l} right={r}: the conjugate pair of label {pair_label} is still on the result {got_labels}")
+            second_dual = [d for (x, d) in seq if x == pair_label][1]
+            cross = -1 if (len(l) % 2 and len(r) % 2) else 1
+            want = cross * (-1 if second_dual else 1)
+            got = -1 if len(flips) % 2 else 1
+            if got != want:
+                bad.setdefault("pairs", f"left={l} right={r}: global sign {got}, expected {want} (pair met {'ket-then-bra' if second_dual else 'bra-then-ket'})")
+    # duplicates with the same direction are refused
+    for l, r in (([(1, False)], [(1, False)]), ([(1, False), (2, True)], [(2, True)])):
+        ev = evaluator(prog)
+        ev.method_stubs = {"phase_global": lambda self_, *a, **k: self_}
+        try:
+            ev.call(f, [stub(ev, l, len(l) % 2), stub(ev, r, len(r) % 2), stub(ev, [], 0)])
+            bad.setdefault("duplicates", f"left={l} right={r}: a repeated label with the same direction is accepted")
+        except Raised:
+            pass
+        except Diverges:
+            bad.setdefault("duplicates", f"left={l} right={r}: the merge does not terminate")
+        except Unsupported as e:
+            raise AnalysisError(f"resolve_combined_oddpos outside the evaluable sub-language: {e}")
+        except (KeyError, TypeError, AttributeError, IndexError, ValueError) as e:
+            bad.setdefault("duplicates", f"left={l} right={r}: fails with {type(e).__name__} instead of the explicit error")
+    ctx.need(n >= 60 or bad, f"R04.8: only {n} label merges evaluated")
+    for key, msg in (("runs", "the label merge evaluates on every small case"),
+                     ("sorted", "the labels left on the result are sorted in the library's own order"),
+                     ("labels", "the labels left on the result are the sorted merge of both operands' labels"),
+                     ("sign", "the global sign is (-1)^(inversions of the concatenated labels) times the cross-over sign (left odd and right odd count)"),
+                     ("pairs", "a conjugate pair across the seam is removed, with a sign iff it meets ket-then-bra"),
+                     ("duplicates", "a repeated label with the same direction is refused")):
+        ctx.check(key not in bad, rid, f, f.node, key, msg + f" ({n} merges)" + ("" if key not in bad else f" — witness: {bad[key]}"))
